@@ -36,12 +36,17 @@ func (fc *fnCtx) evalFormula(f *sx, ev *evalCtx) string {
 			fc.strs[a] = true
 		case strings.HasPrefix(a, "|ty!"):
 			fc.tyNames[a] = true
+		case strings.HasPrefix(a, "|F!"):
+			fc.declImmutableByName(a)
 		case strings.HasPrefix(a, "$"):
 			if v, ok := ev.bind[a]; ok {
 				return v.T
 			}
 			if a == "$visited" {
 				return fc.visitedTerm(ev)
+			}
+			if a == "$closed" {
+				return fc.heapVar(ev.cur, "ch!closed", "(Array V Bool)")
 			}
 			panic(unsupported{fmt.Sprintf("unbound %s in contract formula", a)})
 		case a == "result":
@@ -82,6 +87,13 @@ func (fc *fnCtx) visitedTerm(ev *evalCtx) string {
 }
 
 func (fc *fnCtx) evalHole(text string, ev *evalCtx) Val {
+	if strings.HasPrefix(text, "zero:") {
+		t := fc.e.typeByName[strings.TrimSpace(text[5:])]
+		if t == nil {
+			panic(unsupported{"hole {" + text + "}: unknown type"})
+		}
+		return Val{T: fc.e.sorts.zero(t), S: fc.sortOf(t), Ty: t}
+	}
 	src := atRe.ReplaceAllString(text, "${1}__AT__${2}")
 	src = strings.ReplaceAll(src, "$", "DOLLAR__")
 	e, err := parser.ParseExpr(src)
@@ -306,3 +318,37 @@ func (v Val) withAddr(a *Addr) Val {
 	return v
 }
 
+
+// declImmutableByName declares the pure function of an immutable field that a contract
+// formula mentions by name (|F!<struct type>!<field path>|).
+func (fc *fnCtx) declImmutableByName(atom string) {
+	if _, ok := fc.heapSort[atom]; ok {
+		return
+	}
+	body := strings.TrimSuffix(strings.TrimPrefix(atom, "|F!"), "|")
+	i := strings.Index(body, "!")
+	if i < 0 {
+		return
+	}
+	t := fc.e.typeByName[body[:i]]
+	if t == nil {
+		panic(unsupported{"contract mentions " + atom + ": unknown struct type"})
+	}
+	for _, f := range strings.Split(body[i+1:], ".") {
+		st, ok := t.Underlying().(*types.Struct)
+		if !ok {
+			panic(unsupported{"contract mentions " + atom + ": not a struct path"})
+		}
+		var ft types.Type
+		for k := 0; k < st.NumFields(); k++ {
+			if st.Field(k).Name() == f {
+				ft = st.Field(k).Type()
+			}
+		}
+		if ft == nil {
+			panic(unsupported{"contract mentions " + atom + ": no field " + f})
+		}
+		t = ft
+	}
+	fc.declFun(atom, "(V) "+fc.sortOf(t))
+}
